@@ -305,6 +305,8 @@ def build_for(pid, tier):
         O += miner_cron.build_precommit(pid, tier)
     if pid in ('C15', 'C01', 'C03'):
         O += miner_cron.build_recover(pid, tier)
+        from . import miner_replica
+        O += miner_replica.build_for(pid, tier)
     if pid in ('C15', 'C01', 'C03'):
         D = miner_cron.build_dispute(pid, tier)
         O += D if tier != 'quick' else D[:1]
